@@ -798,6 +798,27 @@ func (g *Gen) genBool(sc *Scope, d int) *Expr {
 }
 
 func (g *Gen) genLInt(sc *Scope, d int) *Expr {
+	if g.failOK && g.chance(10, "partialList") {
+		// a lazy list over constants whose closure fails at one element (or at none): the
+		// list is argument independent, so it is shared by all evaluations of the function;
+		// consumers that need only a prefix succeed, the others fail - every time
+		g.Stats["partial_constant_list"]++
+		k := 2 + g.n(4, "plLen")
+		items := make([]*Expr, k)
+		for i := range items {
+			items[i] = Int(rapid.IntRange(0, 5).Draw(g.T, "plItem"))
+		}
+		g.nodes += k + 4
+		p := g.freshNames(sc, 1)
+		v := Var(p[0])
+		var body *Expr
+		if g.chance(50, "plThrow") {
+			body = If(Bin("=", v, Int(rapid.IntRange(0, 5).Draw(g.T, "plFailAt"))), SCall("throw", Str(g.newToken())), Bin("+", v, Int(1)))
+		} else {
+			body = Bin("%", Int(12), v) // fails at the item 0
+		}
+		return MCall(List(items...), "map", Lam(p, body))
+	}
 	c := g.n(100, "listProd")
 	switch {
 	case c < 20:
